@@ -167,7 +167,7 @@ Proof. intros W Hm NG Hm1 H2 Hm2 HB.
 Lemma restore_prior_spec h m tm0 h3 r2 pb hf hr' : wf h -> getT h m = Some tm0 -> Preamble h m tm0 h3 r2 pb ->
   same_tables h3 hf ->
   restore_prior hf m (t_grad tm0, t_vgrad tm0, t_base tm0) pb = Some hr' ->
-  same_tables h hr'.
+  same_tables h hr' /\ h_next hr' = h_next hf.
 Proof. intros W Hm P (S1 & S2 & S3 & S4 & S5) RP.
   unfold restore_prior in RP. apply bind_Some in RP. destruct RP as (tm & Etm & RP).
   assert (HgetT : forall q, getT hf q = getT h3 q) by (intros q; unfold getT; now rewrite S1).
@@ -190,7 +190,7 @@ Proof. intros W Hm P (S1 & S2 & S3 & S4 & S5) RP.
     rewrite getT_setT in Etb'. destruct (Nat.eqb m b) eqn:E; [apply Nat.eqb_eq in E; lia|].
     rewrite HgetT, B5 in Etb'. inversion Etb'; subst tb'. clear Etb'.
     assert (with_grads (with_grads tb false false) (t_grad tb) (t_vgrad tb) = tb) as -> by (now destruct tb).
-    apply Hfin; auto.
+    split; [|reflexivity]. apply Hfin; auto.
     + intros q. rewrite !getT_setT. destruct (Nat.eqb b q) eqn:E1.
       * apply Nat.eqb_eq in E1; subst q. auto.
       * destruct (Nat.eqb m q) eqn:E2.
@@ -201,7 +201,7 @@ Proof. intros W Hm P (S1 & S2 & S3 & S4 & S5) RP.
       * rewrite keys_put_in by (eapply get_keys; exact Hmf). rewrite Kf. eapply get_keys; exact B4.
   - destruct PB as (B1 & B6).
     assert (hr' = setT hf m tm0) as -> by (destruct (t_base tm0); now inversion RP).
-    apply Hfin; auto.
+    split; [|reflexivity]. apply Hfin; auto.
     + intros q. rewrite getT_setT. destruct (Nat.eqb m q) eqn:E2.
       * apply Nat.eqb_eq in E2; subst q. auto.
       * rewrite HgetT. apply B6. apply Nat.eqb_neq in E2; auto.
@@ -287,17 +287,18 @@ Proof. reflexivity. Qed.
 Lemma inplace_fail_noop h m tm0 h3 r2 pb root h4 g out : wf h -> getT h m = Some tm0 -> Preamble h m tm0 h3 r2 pb ->
   dup h3 root = Some (h4, g) ->
   inplace_fail h4 g m (t_grad tm0, t_vgrad tm0, t_base tm0) pb = Some out ->
-  exists h', out = Raised h' /\ same_tables h h'.
+  exists h', out = Raised h' /\ same_tables h h' /\ h_next h <= h_next h'.
 Proof. intros W Hm P D F. unfold inplace_fail in F.
   apply bind_Some in F. destruct F as (hr & R & F). apply bind_Some in F. destruct F as (hr' & RP & F).
   inversion F; subst out. exists hr'. split; auto.
-  destruct (dup_restore_given h3 root h4 g (pr_wf _ _ _ _ _ _ P) D) as (hr2 & R2 & ST).
+  destruct (dup_restore_given h3 root h4 g (pr_wf _ _ _ _ _ _ P) D) as (hr2 & R2 & ST & N1 & N2).
   rewrite R in R2. inversion R2; subst hr2.
-  eapply restore_prior_spec; eauto. Qed.
+  destruct (restore_prior_spec h m tm0 h3 r2 pb _ hr' W Hm P ST RP) as (A & B). split; auto.
+  rewrite B, N1. rewrite <- (pr_next _ _ _ _ _ _ P). exact N2. Qed.
 
 (* every raising outcome of an in-place statement (failing kernel, or stale view: path_to_base = None) leaves the five tables untouched *)
-Theorem inplace_raised_noop h m k inputs masked fails h' : wf h ->
-  inplace h m k inputs masked fails = Some (Raised h') -> same_tables h h'.
+Theorem inplace_raised_noop_next h m k inputs masked fails h' : wf h ->
+  inplace h m k inputs masked fails = Some (Raised h') -> same_tables h h' /\ h_next h <= h_next h'.
 Proof. intros W H. rewrite inplace_unfold in H.
   apply bind_Some in H. destruct H as (tm0 & Hm & H).
   apply bind_Some in H. destruct H as (h1 & NG & H).
@@ -321,6 +322,10 @@ Proof. intros W H. rewrite inplace_unfold in H.
               end).
       discriminate.
   - destruct (inplace_fail_noop h m tm0 h3 tm2 pb _ h4 g _ W Hm P D H) as (h'' & E & ST). inversion E; subst. exact ST. Qed.
+
+Theorem inplace_raised_noop h m k inputs masked fails h' : wf h ->
+  inplace h m k inputs masked fails = Some (Raised h') -> same_tables h h'.
+Proof. intros W H. apply (inplace_raised_noop_next h m k inputs masked fails h' W H). Qed.
 
 Theorem inplace_failure_noop h m k inputs masked out : wf h ->
   inplace h m k inputs masked true = Some out -> exists h', out = Raised h' /\ same_tables h h'.
